@@ -11,7 +11,7 @@ PROPERTY = "C07"
 RULE = ("body (pattern x length, newline-dense, lengths biased to 0/1/1023/1024/1025/2048/8191-8193/65535-65537/140000) x framing "
         "(Content-Length | chunked with drawn chunk layout, extensions, trailers) x program of read/readline/readlines/"
         "iteration calls with sizes in {None,-1,0,1,2,small,1023,1024,1025,8192,10**6} x segmentation x drain-or-not, "
-        "followed by a pipelined request; oracle = call-by-call io.BytesIO, EOF forever, next request parsed with "
+        "followed by a pipelined request (body up to 1500 bytes), under the default and two tightened limit_request_* configs; oracle = call-by-call io.BytesIO, EOF forever, next request parsed with "
         "equal fields and body. non-trivial = program uses >=2 call kinds or stops before EOF; distinct by case hash")
 ASSUMPTIONS = [
     "readlines(hint) may honour or ignore the hint (PEP 3333); the model follows whichever the server chose",
@@ -45,7 +45,10 @@ def strategy(tier):
         "program": st.lists(op, min_size=0, max_size=8).map(lambda l: [list(x) for x in l]),
         "segs": st.lists(st.sampled_from([1, 2, 3, 7, 100, 1023, 1024, 1025, 4096, 8192]), min_size=1, max_size=4),
         "drain": st.booleans(),
-        "next_body": st.sampled_from(["", "tail", "0\r\n\r\n"]),
+        "next_body": st.sampled_from(["", "tail", "0\r\n\r\n", "t" * 1500, "GET /x HTTP/1.1\r\n\r\n" * 20]),
+        # tightened head limits (the requests built here stay within them): caps derived from them must not count body / pipelined bytes
+        "limits": st.sampled_from([None, None, None, {"limit_request_fields": 8, "limit_request_field_size": 126},
+                                   {"limit_request_fields": 3, "limit_request_field_size": 40, "limit_request_line": 64}]),
         "version": st.sampled_from(["1.1", "1.1", "1.0"]),
         "method": st.sampled_from(["POST", "POST", "PUT", "GET", "HEAD", "DELETE", "OPTIONS", "PATCH"]),
         "source": st.sampled_from(["iter", "sock"]),
@@ -97,7 +100,7 @@ def build(case):
 
 def run_case(case):
     stream, cuts, body, nb = build(case)
-    cfg = penv.make_cfg()
+    cfg = penv.make_cfg(**(case.get("limits") or {}))
     if case.get("source") == "sock":
         # the socket reader path (SocketUnreader: recv() of at most 8192 bytes) instead of the iterator path
         from vlib.wenv import FakeSocket
